@@ -8,6 +8,7 @@
 package main
 
 import (
+	"bytes"
 	"context"
 	"crypto/x509"
 	"encoding/json"
@@ -213,6 +214,15 @@ func main() {
 		{"add-annotation", "envelope", func(s *script) { s.mutate = edit(func(m map[string]any) { ann(m)["k9"] = "v9" }) }, false},
 		{"extra-payload-field", "envelope", func(s *script) { s.mutate = edit(func(m map[string]any) { m["extra"] = 1 }) }, true},
 		{"extra-payload-field-null", "envelope", func(s *script) { s.mutate = edit(func(m map[string]any) { m["extra"] = nil }) }, true},
+		// the member targetArtifact TWICE: a first one that carries the requested descriptor plus an extra field, a second, empty one
+		{"duplicate-targetArtifact-member", "envelope", func(s *script) {
+			s.mutate = func(b []byte) []byte {
+				var m map[string]json.RawMessage
+				json.Unmarshal(b, &m)
+				first := append(append([]byte{}, bytes.TrimSuffix(bytes.TrimSpace(m["targetArtifact"]), []byte("}"))...), []byte(`,"evil":1}`)...)
+				return []byte(`{"targetArtifact":` + string(first) + `,"targetArtifact":{}}`)
+			}
+		}, true},
 		// extra members that happen to be NAMED like members of the other level
 		{"extra-payload-field-named-digest", "envelope", func(s *script) {
 			s.mutate = edit(func(m map[string]any) { m["digest"] = "sha256:" + strings.Repeat("0", 64) })
